@@ -71,19 +71,24 @@ func (m *Sparse) Load(addr model.Addr, w expr.Width) (expr.Expr, bool) {
 		return nil, false
 	}
 
-	var finalEx expr.Expr
-	if low := ints[0].Low; low == addr {
-		finalEx = ints[0].Val.expr()
-	} else {
-		finalEx = ints[0].Val.cutBegin(expr.Width(addr - low)).expr()
+	// The first interval can both start before addr and end behind end, so
+	// bytes outside of [addr, end) have to be cut on both sides. Please
+	// note that cutEnd and cutBegin accept the length to keep.
+	first := ints[0].Val
+	if ints[0].High > end {
+		first = first.cutEnd(expr.Width(end - ints[0].Low))
 	}
+	if low := ints[0].Low; low < addr {
+		first = first.cutBegin(first.width() - expr.Width(addr-low))
+	}
+	finalEx := first.expr()
 
 	for _, o := range ints[1:] {
 		var ex expr.Expr
 		if o.High <= end {
 			ex = o.Val.expr()
 		} else {
-			ex = o.Val.cutEnd(expr.Width(o.High - end)).expr()
+			ex = o.Val.cutEnd(expr.Width(end - o.Low)).expr()
 		}
 
 		ex = expr.NewBinary(expr.Lsh, ex, expr.ConstFromUint((o.Low-addr)*8), w)
